@@ -156,6 +156,14 @@ func canonical() []scenario {
 	// early exit: wave 0 leaves after wave 1 has arrived at the barrier
 	add("canon-early-exit-after-others-arrived", k(2, 1, phase{Kind: "delay", Base: 1, Per: 40, Rot: 1, Mask: 1},
 		phase{Kind: "exit", Mask: 1, Store: true}, lds(1, false, 64)), quiet(false, fast, fast))
+	// the slowest wavefront of 4 / of 8 leaves when the others already wait (two groups; memory in flight);
+	// one barrier generation after the exit, then several
+	add("canon-early-exit-of-slowest-of-4", k(4, 2, phase{Kind: "loadwait", N: 2, K: 1}, phase{Kind: "delay", Base: 1, Per: 14, Rot: 1, Mask: 3},
+		phase{Kind: "exit", Mask: 1 << 2, Store: true}, lds(1, true, 64)), quiet(true, slowV, fast))
+	add("canon-early-exit-of-slowest-of-8", k(8, 1, lds(1, false, 64), phase{Kind: "delay", Base: 1, Per: 9, Rot: 2, Mask: 7},
+		phase{Kind: "exit", Mask: 1 << 5, Store: false}, phase{Kind: "globx", N: 1, Delta: 192}), quiet(false, fast, fast))
+	add("canon-early-exit-of-slowest-of-4-two-generations-after", k(4, 2, phase{Kind: "delay", Base: 1, Per: 14, Rot: 1, Mask: 3},
+		phase{Kind: "exit", Mask: 1 << 2, Store: true}, lds(2, true, 64)), quiet(true, fast, fast))
 	// the same with 16 wavefronts and two generations, odd wavefronts leave between the generations
 	add("canon-early-exit-between-generations", k(16, 1, lds(1, false, 64), phase{Kind: "exit", Mask: 0xAAAA, Store: true},
 		phase{Kind: "delay", Base: 2, Per: 6, Mask: 3}, lds(2, true, 128)), quiet(true, fast, fast))
